@@ -12,6 +12,7 @@ from __future__ import annotations
 import math
 import os
 import pickle
+from types import SimpleNamespace
 
 import numpy as np
 
@@ -110,6 +111,10 @@ def bounds(tier, seed):
 
 
 # ------------------------------------------------------------------------------------------------ stubs
+class StubContractError(RuntimeError):
+    """The library called a stub outside the stub's contract (e.g. a propagation window that is not whole steps)."""
+
+
 class LinDyn:
     """Linear dynamics stub: propagate(t0, t1, X) = F^k X with k = (t1 - t0) / DT whole steps."""
 
@@ -122,7 +127,7 @@ class LinDyn:
         kk = int(round(k))
         self.calls.append((float(initial_time), float(final_time)))
         if kk < 0 or abs(k - kk) > 1e-9:
-            raise RuntimeError(f"stub dynamics asked for a window of {k} steps")
+            raise StubContractError(f"stub dynamics asked for a window of {k} steps")
         return np.linalg.matrix_power(self.f, kk) @ initial_state
 
 
@@ -334,7 +339,7 @@ def check_predict(ctx, flt, pre, extra, nontrivial, sub="predict"):
     band = kf.scaled_err(kf.kf_predict(pre["est_x"], low, sysm.f, sysm.q)[1], pm, d, d)
     # the Cholesky factor of an estimate whose ill-conditioning is not a diagonal scaling (a posterior with one well
     # measured direction) is accurate to eps * cond only: 100 eps cond(scaled est_p)
-    rel_cov = 1e-9 + floor / float(np.min(d) ** 2) + 2.0 * band + 100.0 * EPS * kf.scaled_cond(0.5 * (pre["est_p"] + pre["est_p"].T))
+    rel_cov = 1e-9 + floor / float(np.min(d) ** 2) + 4.0 * band + 100.0 * EPS * kf.scaled_cond(0.5 * (pre["est_p"] + pre["est_p"].T))
 
     e = kf.vec_err(flt.pred_x, xm)
     ctx.case(sub, extra, e <= tol.mean, nontrivial=nontrivial, field="pred_x", ratio=e / tol.mean,
@@ -717,6 +722,30 @@ def _run_weights(res, item):
                      ep == {"alpha": a, "beta": b, "kappa": (None if tuning[2] is None else k), "resample": False},
                      nontrivial=nt, signature="C06/weights/extra_parameters", observed=str(ep), item=item)
             res.observe(mw, cw)
+            # the configuration path builds the same filter (duck-typed config object: alpha = 1 is admissible for the
+            # constructor although the config schema itself wants alpha < 1)
+            for resample, iod, mmae in ((False, False, False), (True, True, False), (True, False, True)):
+                cfg = SimpleNamespace(initial_orbit_determination=iod, adaptive_estimation=mmae, resample=resample,
+                                      alpha=a, beta=b, kappa=None if tuning[2] is None else k)
+                det = Detector(False)
+                f2 = UnscentedKalmanFilter.fromConfig(cfg, 10002, ScenarioTime(120.0), sysm.x0.copy(), sysm.p0.copy(),
+                                                      LinDyn(sysm.f), sysm.q.copy(), det)
+                ok = (
+                    isinstance(f2, UnscentedKalmanFilter) and _exact(f2.mean_weight, mw) and _exact(f2.cvr_weight, cw)
+                    and f2.gamma == flt.gamma and f2.target_id == 10002 and float(f2.time) == 120.0
+                    and f2.initial_orbit_determination is iod and f2.adaptive_estimation is mmae
+                    and f2.maneuver_detection is det and _exact(f2.est_x, sysm.x0) and _exact(f2.est_p, sysm.p0)
+                    and _exact(f2.q_matrix, sysm.q)
+                    and f2.extra_parameters == {"alpha": a, "beta": b, "kappa": cfg.kappa, "resample": resample}
+                )
+                # behaviour of the resample switch: forecast redraws the sigma points iff it is on
+                f2.predict(ScenarioTime(180.0))
+                before = np.array(f2.sigma_points, copy=True)
+                f2.forecast(sysm.stack((1,)))
+                redrawn = not _exact(f2.sigma_points, before)
+                res.case("weights_from_config", dict(case, resample=resample, iod=iod, mmae=mmae), ok and redrawn is resample,
+                         nontrivial=nt, signature="C06/weights/from_config", observed={"fields_ok": ok, "redrawn": redrawn},
+                         item=item)
 
 
 # ------------------------------------------------------------------------------------------------ sigma points
@@ -748,7 +777,8 @@ def _run_sigma(res, item):
                              signature="C06/sigma/shape_centre", observed=list(pts.shape), item=item)
                     if not shape_ok:
                         continue
-                    # pairs are mirror images about the mean, in the order [mean, +columns, -columns]
+                    # column i and column i + n are mirror images about the mean; one half is +gamma * root (the order
+                    # of the halves is not part of the contract: either sign is accepted)
                     dev = pts - mean.reshape(n, 1)
                     # adding gamma*L to the mean rounds at eps*|mean|; dev of the two halves agree to that
                     rt = 8 * EPS * (float(np.max(np.abs(mean))) + gamma * float(np.max(d)))
@@ -756,9 +786,11 @@ def _run_sigma(res, item):
                     root = dev[:, 1 : n + 1] / gamma
                     # cholesky: lower triangular with positive diagonal, in column order
                     if sq is None:
-                        order_ok = float(np.max(np.abs(np.triu(root, 1)))) <= rt / gamma and bool(np.all(np.diag(root) > 0))
+                        dg = np.diag(root)
+                        order_ok = float(np.max(np.abs(np.triu(root, 1)))) <= rt / gamma and bool(np.all(dg > 0) or np.all(dg < 0))
                     else:  # custom root: the columns of sqrt_func(cov) are used as returned
-                        order_ok = float(np.max(np.abs(root - sq(cov)))) <= rt / gamma
+                        want_root = sq(cov)
+                        order_ok = min(float(np.max(np.abs(root - want_root))), float(np.max(np.abs(root + want_root)))) <= rt / gamma
                     res.case("sigma_layout", case, mirror_ok and order_ok, nontrivial=nt, signature="C06/sigma/layout",
                              observed={"mirror": mirror_ok, "order": order_ok}, item=item)
                     # the set reproduces mean and covariance under the filter's documented weights
@@ -853,7 +885,8 @@ def _run_bookkeeping(res, item):
                          expected=str(want), item=item)
                 ures = flt.getUpdateResult()
                 res.case("bookkeeping_maneuver_flags", case,
-                         ures.maneuver_detected is bool(verdict) and ures.source == EstimateSource.INTERNAL_OBSERVATION,
+                         type(ures) is UKFUpdateResult and getattr(ures, "maneuver_detected", None) is bool(verdict)
+                         and getattr(ures, "source", None) == EstimateSource.INTERNAL_OBSERVATION,
                          nontrivial=True, signature="C06/bookkeeping/update_result", item=item)
                 # the next predict / forecast clears the flags
                 flt.forecast(sysm.stack(comp))
@@ -952,23 +985,42 @@ def _run_noise(res, item):
 
 
 # ------------------------------------------------------------------------------------------------ dispatch
+def _raised_in_library(exc) -> bool:
+    """True iff the exception was raised by (or underneath) resonaate code called from this harness."""
+    if isinstance(exc, StubContractError):
+        return True
+    tb = exc.__traceback__
+    lib = False
+    while tb is not None:  # library frame below the last harness frame (numpy raising under a library call counts)
+        name = tb.tb_frame.f_code.co_filename
+        if "/verif/" in name:
+            lib = False
+        elif "/resonaate/" in name:
+            lib = True
+        tb = tb.tb_next
+    return lib
+
+
 def run_item(item):
     res = fw.Result()
+    item = tuple(item)
     kind = item[0]
-    if kind == "lin":
-        _run_lin(res, tuple(item))
-    elif kind == "weights":
-        _run_weights(res, tuple(item))
-    elif kind == "sigma":
-        _run_sigma(res, tuple(item))
-    elif kind == "noobs_nonlinear":
-        _run_noobs_nonlinear(res, tuple(item))
-    elif kind == "bookkeeping":
-        _run_bookkeeping(res, tuple(item))
-    elif kind == "noise":
-        _run_noise(res, tuple(item))
-    else:
-        raise ValueError(kind)
+    runner = {
+        "lin": _run_lin,
+        "weights": _run_weights,
+        "sigma": _run_sigma,
+        "noobs_nonlinear": _run_noobs_nonlinear,
+        "bookkeeping": _run_bookkeeping,
+        "noise": _run_noise,
+    }[kind]
+    try:
+        runner(res, item)
+    except Exception as exc:  # noqa: BLE001
+        if not _raised_in_library(exc):
+            raise  # harness error: exit 2
+        # the library raised on an input of the announced lattice: the property cannot hold there
+        res.case(f"{kind}_exception", {"item": list(item[:6])}, False, nontrivial=True,
+                 signature=f"C06/exception/{kind}/{type(exc).__name__}", observed=str(exc)[:300], item=item)
     if _DEBUG:
         import json  # noqa: PLC0415
 
